@@ -25,6 +25,7 @@ def check(repo, rep, tier):
     rep.run(rd.rule_call_argument_order, em, rep, 'C09.M2')
     rep.run(rd.rule_findall_shape, em, rep, 'C09.M3')
     rep.run(rd.rule_neq, em, rep, 'C09.M4')
+    rep.run(rd.rule_eq_is_unify, em, rep, 'C09.M4e')
     rep.run(rx.rule_derived_tables_follow, em, rep, 'C09.M5')
     rep.run(rx.rule_lookups_agree, em, rep, 'C09.M6')
     from .. import rules_state as rs
